@@ -24,7 +24,7 @@ ASSUMPTIONS = ["horizon of at least 2 months (the code needs >= 48)", "INCLUDE_F
                "meat running total handed to the optimiser equals the cumulative slaughter series (checked per instance)"]
 TRUSTED = ["scipy/HiGHS only in the failing-input search (never for the verdict on the unchanged tree)"]
 
-KNOWN_GAP_KEYS = {"meat-cumulative": "meat-cumulative", "stored-full-use-no-storage": "stored-full-use-no-storage"}
+KNOWN_GAP_KEYS = {"meat-cumulative-vs-slaughter": "meat-cumulative", "stored-full-use-no-storage": "stored-full-use-no-storage"}
 
 
 def presets(ctx):
